@@ -247,7 +247,13 @@ def source_of(key):
     return P.apply_layout(P.render_program(key), key.get("layout", "lf"))
 
 
+_BACKSTOPS = [0]  # per worker process: how often the 20 s backstop fired
+
+
 def run_program(key, cfgs):
+    if _BACKSTOPS[0] >= 3:
+        # this worker has already reported three runs that did not come back: the check fails; every further such run would cost another 20 s
+        return [], 0, {"skipped-after-backstops"}
     src = source_of(key)
     viol, transitions, outcomes = [], 0, set()
     d = tempfile.mkdtemp(prefix="c07_")
@@ -266,6 +272,7 @@ def run_program(key, cfgs):
                 with open(path, "rt", newline="") as f:
                     after = f.read()
                 if outcome == "exhausted":
+                    _BACKSTOPS[0] += 1
                     sig = dict(ctx)
                     sig.update(clause="fuel_exhausted", round=min(rnd, 2))
                     viol.append(dict(sig=sig, expected="terminates (20 s backstop; C11 decides termination with a step budget)", observed="backstop hit", case=dict(kind="program", key=key, cfg=cfg)))
